@@ -100,7 +100,7 @@ Den(T, txt) ==
   LET tk == Tokens(T, txt) IN
   IF tk.st # "ok" THEN [st |-> tk.st]
   ELSE IF ~WellFormed(T, tk.toks) THEN [st |-> "err"]
-  ELSE [st |-> "ok", den |-> Parse(T, tk.toks)]
+  ELSE [st |-> "ok", den |-> Parse(T, tk.toks), toks |-> tk.toks]
 
 \* ---- normal form modulo AC of flagged operators ---------------------------------------------------
 RECURSIVE Norm(_, _)
